@@ -518,10 +518,10 @@ class CompositeKeystoneAperture:
         else:
             nr = self.center_circle_diameter/2
             xx = self.center_xx / nr
-            yy = self.center_yy
+            yy = self.center_yy / nr
             basis = list(center_basis(center_orders, x=xx, y=yy, **center_basis_kwargs))  # NOQA - length
             basis = np.asarray(basis)
-            grids.append((rr, tt))
+            grids.append((xx, yy))
             bases.append(basis)
 
         # now do each segment
